@@ -192,6 +192,9 @@ func (k *Kube) Apply(kind, key string, obj client.Object) bool {
 		obj = copyObj(obj)
 		k.rv++
 		obj.SetResourceVersion(fmt.Sprint(k.rv))
+		if prev := s.truth[key]; prev != nil && obj.GetUID() == "" {
+			obj.SetUID(prev.GetUID()) // an update keeps the identity of the object
+		}
 		if obj.GetUID() == "" {
 			k.uid++
 			obj.SetUID(typesUID(fmt.Sprintf("uid-%04d", k.uid)))
